@@ -20,7 +20,7 @@ EXPLANATION = (
     '(exhaustive constant evaluation, shared with C04.1), so a mate that cannot be completed before the 50-move limit is never stored '
     'as a mate; the clock passed is the position\'s half-move clock; (2) Search::iterativeDeepening lowers minProbeDepth to 1 only on '
     'the true branch of updateTB(); (3) TBProbe::extendPV extends a PV with tablebase moves only under the same distance inequality.'
-    ' (4) the on-demand table is never consulted for positions with castling rights (shared with C12.5).')
+    ' (4) the on-demand table is never consulted for positions with castling rights (shared with C12.5); (5) at every exit of every TranspositionTable method the pair (generator, table region) is in the class invariant - no generator installed, or a complete one with its region reserved (shared with C12.1).')
 UNDECIDED = 'exactness of the reported distances (C12: value-level) and the choice of move among equally good tablebase moves.'
 ASSUMPTIONS = ['the generated table is complete when updateTB() returns true (C12.1, C12.2)']
 
@@ -38,6 +38,9 @@ def run(fb, rep, tier):
     C04.c1_encoding(fb, rep, 'C13.1')
     from . import C12
     C12.c5_probe_scope(fb, rep, 'C13.4')
+    # the exact scores come from the on-demand table: it is only ever observable complete and with its region reserved
+    # (shared with C12.1: an installed generator whose bytes ordinary stores may overwrite reports wrong mate distances)
+    C12.c1_typestate(fb, rep, 'C13.5')
 
 
 def c1_dtm_blocks(fb, rep):
